@@ -178,13 +178,18 @@ def run(ctx: Ctx) -> None:
             ctx.corr_compared += 1
             if e.strip() != g.strip():
                 ctx.mismatch("text_join: implementation and model differ", {"request": ln[:1200], "impl": e[:500], "model": g[:500]})
+        # tie of the modelled block sub-parser (mini_wellformed is a theorem about exactly this model)
+        from . import miniblock
+        miniblock.tie(ctx, drv, 2000 if quick else 50000)
     finally:
         drv.close()
     ctx.partial += [
         "kind matching of emphasis/strikethrough pairs (the delimiter matching is laminar: no crossing * _ ~~ pairs) is "
         "not proved: processDelimiters is not modelled; covered by the oracle incl. the bounded-exhaustive delimiter sweep",
-        "balance of the block-level stream follows from per-rule contracts (every rule pushes balanced segments), which are "
-        "monitored on the implementation (C01's contract monitor), not proved for all rules",
+        "balance and levels of the block-level stream follow from the segment contract K5 (engine theorem loop_segs); K5 is "
+        "PROVED for code, fence, hr, heading, paragraph (Props/C02b.lean segOK_*), giving the unconditional mini_wellformed "
+        "(levelled from 0, balanced, SyntaxTreeNode builds) for that sub-parser, whose model is tied by the `miniblock` "
+        "differential runs; for the other rules K5 is monitored on the implementation (contract monitor), not proved",
     ]
 
 
